@@ -1067,6 +1067,76 @@ def _loop_level_jumps_kind(stmts, kinds):
     return False
 
 
+def normalise_reduce(tree):
+    """`T = functools.reduce(lambda acc, x: E, ITER, INIT)` is the loop `acc = INIT; for x in ITER: acc = E; T = acc`
+    (reduce with an initial value; argument evaluation order kept)."""
+    names, mods = set(), set()
+    for st in ast.walk(tree):
+        if isinstance(st, ast.ImportFrom) and st.module == "functools":
+            for a in st.names:
+                if a.name == "reduce":
+                    names.add(a.asname or a.name)
+        elif isinstance(st, ast.Import):
+            for a in st.names:
+                if a.name == "functools":
+                    mods.add(a.asname or a.name)
+    if not names and not mods:
+        return 0
+    n = 0
+    counter = [0]
+    for fn in [f for f in ast.walk(tree) if isinstance(f, (ast.FunctionDef, ast.AsyncFunctionDef))]:
+        used = {x.id for x in ast.walk(fn) if isinstance(x, ast.Name)} | {a.arg for a in fn.args.posonlyargs + fn.args.args + fn.args.kwonlyargs}
+        for node in ast.walk(fn):
+            for field in ("body", "orelse", "finalbody"):
+                stmts = getattr(node, field, None)
+                if not isinstance(stmts, list) or not stmts or not isinstance(stmts[0], ast.stmt):
+                    continue
+                for st in list(stmts):
+                    if isinstance(st, ast.Assign) and len(st.targets) == 1:
+                        mk = lambda v, st=st: ast.Assign(targets=[_clone(st.targets[0])], value=v)  # noqa: E731
+                    elif isinstance(st, ast.Return) and st.value is not None:
+                        mk = lambda v, st=st: ast.Return(value=v)  # noqa: E731
+                    else:
+                        continue
+                    c = st.value
+                    if not (isinstance(c, ast.Call) and not c.keywords and len(c.args) == 3 and isinstance(c.args[0], ast.Lambda)):
+                        continue
+                    f = c.func
+                    if not ((isinstance(f, ast.Name) and f.id in names) or (isinstance(f, ast.Attribute) and f.attr == "reduce" and isinstance(f.value, ast.Name) and f.value.id in mods)):
+                        continue
+                    lam = c.args[0]
+                    a = lam.args
+                    if len(a.args) != 2 or a.vararg or a.kwarg or a.kwonlyargs or a.defaults or a.posonlyargs:
+                        continue
+                    acc, x = a.args[0].arg, a.args[1].arg
+                    counter[0] += 1
+                    ren = {}
+                    for nm in (acc, x):
+                        if nm in used:
+                            ren[nm] = f"_rd{counter[0]}_{nm}"
+                    body = _Rename2(ren).visit(_clone(lam.body))
+                    acc2, x2 = ren.get(acc, acc), ren.get(x, x)
+                    pre = []
+                    it = c.args[1]
+                    if not pure(c.args[1]) and not pure(c.args[2]):
+                        tmp = f"_rd{counter[0]}_it"
+                        pre.append(ast.Assign(targets=[ast.Name(id=tmp, ctx=ast.Store())], value=c.args[1]))
+                        it = ast.Name(id=tmp, ctx=ast.Load())
+                    new = pre + [
+                        ast.Assign(targets=[ast.Name(id=acc2, ctx=ast.Store())], value=c.args[2]),
+                        ast.For(target=ast.Name(id=x2, ctx=ast.Store()), iter=it,
+                                body=[ast.Assign(targets=[ast.Name(id=acc2, ctx=ast.Store())], value=body)], orelse=[]),
+                        mk(ast.Name(id=acc2, ctx=ast.Load())),
+                    ]
+                    for y in new:
+                        ast.copy_location(y, st)
+                        ast.fix_missing_locations(y)
+                    k = stmts.index(st)
+                    stmts[k:k + 1] = new
+                    n += 1
+    return n
+
+
 def normalise_ifexp(tree):
     """`x = A if C else B` is the same statement as `if C: x = A` / `else: x = B`; likewise `return A if C else B`.
     The statement form gives every path-based rule one path per arm."""
@@ -1515,6 +1585,7 @@ def normalise_program(trees):
     reshaped = {}
     for path, tree in trees.items():
         n_ = normalise_count_loops(tree)
+        n_ += normalise_reduce(tree)
         n_ += normalise_next_loops(tree)
         n_ += normalise_loops(tree)
         k_ = normalise_ifexp(tree)
@@ -1645,6 +1716,7 @@ def normalise_program(trees):
             stats[path] = total
             # the expansions may themselves contain the shapes the reshaping passes normalise
             normalise_count_loops(tree)
+            normalise_reduce(tree)
             normalise_loops(tree)
             while normalise_ifexp(tree):
                 pass
